@@ -473,6 +473,12 @@ class Sim:
                 self.anc_last[f] = e
             exp[f] = np.asarray(e)
         rec.check(len(root) == self.n, f"len/root/{h}", f"{len(root)} != {self.n}")
+        for f in sorted(self.temp):
+            # documented: NaN for all root events that are not part of the assigning child
+            got_t = np.asarray(root[f])
+            rec.check(eqnan(got_t, self.temp[f]), f"feature/temporary/root-fill/{h}",
+                      lambda: f"root['{f}'] = {got_t.tolist()} expected "
+                              f"{self.temp[f].tolist()}")
         for L in range(R + 1):
             ds, lv, v = self.ds[L], self.lv[L], views[L]
             m = len(v)
